@@ -1,5 +1,24 @@
 /-
   DDS.Proofs.Dense — refinement proofs for the plain `DenseStore` model (`kind = .plain`).
+
+  Content is observed pointwise through `wt s i = at0 s.bins (i - s.offset)`.
+
+  * `Inv` is the invariant; it holds of `DStore.new .plain` (`inv_new`) and is preserved by
+    `addWithCount`, `mergeSame`, `mergeBins`, `clear`, `reweight` (`*_ok`), hence by every
+    operation history (`run_ok`).
+  * `countEq` is kept as `count = bins.toList.sum`; sums are handled through
+    `rsum f lo n = Σ_{lo ≤ j < lo+n} f j` and `sum_eq_window` (the array sum is the sum of the
+    weights over any window containing the support), from which `sum_eq_of_wt`, `sum_point`,
+    `sum_add_of_wt`, `sum_mul_of_wt` follow.
+  * Deviation from the first draft of `Inv`: the tightness clauses `0 < wt s s.minIndex`,
+    `0 < wt s s.maxIndex` are false for indexes outside int32 (`minIndex_counterexample`,
+    `maxIndex_counterexample`; reproduced on the Go code), so they carry the alternative
+    `… ∨ minIndex = maxInt32` / `… ∨ maxIndex = minInt32`.  With `Bounded32` (all weight on
+    int32 indexes, preserved by every operation given int32 arguments, `run_ok32`) the exact
+    statements `minIndex_spec` / `maxIndex_spec` hold.
+  * `GrowthOK` abstracts the float computation `denseNewLength`.
+
+  Only core Lean is used (no Mathlib): `omega` for indexes, `grind` for `Rat` arithmetic.
 -/
 import DDS.Model.Dense
 
@@ -500,6 +519,1020 @@ theorem shiftCounts_spec (s : DStore) (shift : Int) (hz : ZeroOut s)
     apply hfin
     · rw [hmoff, hmlen]; omega
     · intro j; omega
+
+/-! ## `centerCounts` -/
+
+theorem centerCounts_spec (s : DStore) (newMin newMax : Int) (hz : ZeroOut s)
+    (hmm : s.minIndex ≤ s.maxIndex) (hlo : s.offset ≤ s.minIndex)
+    (hhi : s.maxIndex < s.offset + s.len)
+    (hfit : newMax - newMin + 1 ≤ s.len) (hsub : newMin ≤ s.minIndex ∧ s.maxIndex ≤ newMax) :
+    ∃ nb off', s.centerCounts newMin newMax =
+        some { s with bins := nb, offset := off', minIndex := newMin, maxIndex := newMax } ∧
+      nb.size = s.bins.size ∧ off' ≤ newMin ∧ newMax < off' + s.len ∧
+      ∀ j, at0 nb (j - off') = wt s j := by
+  have hd : 0 ≤ newMax - newMin + 1 := by omega
+  have hl : 0 ≤ s.len := by unfold len; omega
+  obtain ⟨nb, hsc, hsz, hw⟩ := shiftCounts_spec s
+    (s.offset + s.len / 2 - (newMin + (newMax - newMin + 1) / 2)) hz hmm hlo hhi
+    (by omega) (by omega)
+  refine ⟨nb, s.offset - (s.offset + s.len / 2 - (newMin + (newMax - newMin + 1) / 2)), ?_, hsz,
+    by omega, by omega, hw⟩
+  simp only [centerCounts]
+  rw [Int.tdiv_eq_ediv_of_nonneg hd, Int.tdiv_eq_ediv_of_nonneg hl, hsc]
+  rfl
+
+/-! ## `extendRange` -/
+
+theorem getNewLength_plain (s : DStore) (hp : s.kind = .plain) (a b : Int) :
+    s.getNewLength a b = denseNewLength a b := by
+  unfold getNewLength
+  rw [hp]
+  cases denseNewLength a b <;> rfl
+
+theorem adjust_plain (s : DStore) (hp : s.kind = .plain) (a b : Int) :
+    s.adjust a b = s.centerCounts a b := by
+  unfold adjust
+  rw [hp]
+
+theorem grow_spec (s : DStore) (k : Int) (hk : 0 ≤ k) :
+    s.grow k = some { s with bins := s.bins ++ Array.replicate k.toNat 0 } := by
+  unfold grow
+  rw [if_neg (by omega)]
+
+/-- `adjust` of the plain store (= `centerCounts`): no panic, content preserved -/
+theorem adjust_spec (t : DStore) (hp : t.kind = .plain) (hz : ZeroOut t)
+    (hmm : t.minIndex ≤ t.maxIndex) (hlo : t.offset ≤ t.minIndex)
+    (hhi : t.maxIndex < t.offset + t.len) (newMin newMax : Int)
+    (hfit : newMax - newMin + 1 ≤ t.len) (hsub : newMin ≤ t.minIndex ∧ t.maxIndex ≤ newMax) :
+    ∃ s', t.adjust newMin newMax = some s' ∧ s'.kind = .plain ∧ s'.count = t.count ∧
+      s'.minIndex = newMin ∧ s'.maxIndex = newMax ∧ s'.offset ≤ newMin ∧
+      newMax < s'.offset + s'.len ∧ s'.len = t.len ∧ ∀ j, wt s' j = wt t j := by
+  obtain ⟨nb, off', hc, hsz, h1, h2, hw⟩ := centerCounts_spec t newMin newMax hz hmm hlo hhi hfit hsub
+  refine ⟨{ t with bins := nb, offset := off', minIndex := newMin, maxIndex := newMax },
+    by rw [adjust_plain t hp, hc], hp, rfl, rfl, rfl, h1, ?_, ?_, hw⟩
+  · simp only [len, hsz]; exact h2
+  · simp only [len, hsz]
+
+theorem extendRange_spec (hG : GrowthOK) (s : DStore) (h : Inv s) (a b : Int) (hab : a ≤ b) :
+    ∃ s', s.extendRange a b = some s' ∧ s'.kind = .plain ∧ s'.count = s.count ∧
+      s'.minIndex = min a s.minIndex ∧ s'.maxIndex = max b s.maxIndex ∧
+      s'.offset ≤ s'.minIndex ∧ s'.maxIndex < s'.offset + s'.len ∧
+      (∀ j, wt s' j = wt s j) := by
+  simp only [extendRange]
+  by_cases h0 : s.count = 0
+  · rw [if_pos h0, getNewLength_plain s h.plain]
+    obtain ⟨hsz, hmin, hmax⟩ := h.empty h0
+    obtain ⟨L, hL, hLge⟩ := hG (min a s.minIndex) (max b s.maxIndex) (by omega)
+    rw [hL]
+    simp only [Option.bind_eq_bind, Option.bind_some]
+    rw [grow_spec s L (by omega)]
+    simp only [Option.bind_some, h.plain]
+    have hlen : ∀ (o m M : Int) (c : Bool),
+        ({ kind := DKind.plain, bins := s.bins ++ Array.replicate L.toNat 0,
+           count := s.count, offset := o, minIndex := m, maxIndex := M, isCollapsed := c } : DStore).len = L := by
+      intro o m M c; simp [len, hsz]; omega
+    obtain ⟨s', hs', hk, hc, hmi, hma, ho1, ho2, _, hw⟩ := adjust_spec
+      { kind := DKind.plain, bins := s.bins ++ Array.replicate L.toNat 0, count := s.count,
+        offset := min a s.minIndex, minIndex := min a s.minIndex, maxIndex := max b s.maxIndex,
+        isCollapsed := s.isCollapsed } rfl
+      (by intro i _; simp only [wt, at0_append_replicate]; exact at0_out _ _ (by omega))
+      (by simp only; omega) (by simp only; omega) (by rw [hlen]; simp only; omega)
+      (min a s.minIndex) (max b s.maxIndex) (by rw [hlen]; omega) (by simp only; omega)
+    refine ⟨s', hs', hk, hc, hmi, hma, by omega, by omega, ?_⟩
+    intro j
+    rw [hw]
+    simp only [wt, at0_append_replicate]
+    rw [at0_out _ _ (by omega), at0_out _ _ (by omega)]
+  · rw [if_neg h0]
+    obtain ⟨w1, w2, w3, _, _⟩ := h.window h0
+    by_cases hin : min a s.minIndex ≥ s.offset ∧ max b s.maxIndex < s.offset + s.len
+    · rw [if_pos hin]
+      exact ⟨_, rfl, h.plain, rfl, rfl, rfl, hin.1, hin.2, fun j => rfl⟩
+    · rw [if_neg hin, getNewLength_plain s h.plain]
+      obtain ⟨L, hL, hLge⟩ := hG (min a s.minIndex) (max b s.maxIndex) (by omega)
+      rw [hL]
+      simp only [Option.bind_eq_bind, Option.bind_some]
+      by_cases hgt : L > s.len
+      · rw [if_pos hgt, grow_spec s _ (by omega)]
+        simp only [Option.bind_some]
+        have hlen : ({ s with bins := s.bins ++ Array.replicate (L - s.len).toNat 0 } : DStore).len = L := by
+          simp [len] at hgt ⊢; omega
+        obtain ⟨s', hs', hk, hc, hmi, hma, ho1, ho2, _, hw⟩ := adjust_spec
+          { s with bins := s.bins ++ Array.replicate (L - s.len).toNat 0 } h.plain
+          (by intro i hi; simp only [wt, at0_append_replicate]; exact h.outside i hi)
+          w2 w1 (by rw [hlen]; simp only; omega)
+          (min a s.minIndex) (max b s.maxIndex) (by rw [hlen]; omega) (by simp only; omega)
+        refine ⟨s', hs', hk, hc, hmi, hma, by omega, by omega, ?_⟩
+        intro j
+        rw [hw]
+        simp only [wt, at0_append_replicate]
+      · rw [if_neg hgt]
+        simp only [Option.pure_def, Option.bind_some]
+        obtain ⟨s', hs', hk, hc, hmi, hma, ho1, ho2, _, hw⟩ := adjust_spec s h.plain h.outside
+          w2 w1 w3 (min a s.minIndex) (max b s.maxIndex) (by omega) (by omega)
+        exact ⟨s', hs', hk, hc, hmi, hma, by omega, by omega, hw⟩
+
+/-! ## `normalize` / `addWithCount` -/
+
+theorem at0_eq_wt (s : DStore) (p : Int) : at0 s.bins p = wt s (p + s.offset) := by
+  unfold wt; congr 1; omega
+
+theorem nonneg_of_wt (s : DStore) (h : ∀ j, 0 ≤ wt s j) : ∀ p, 0 ≤ at0 s.bins p := by
+  intro p; rw [at0_eq_wt]; exact h _
+
+/-- changing one array position by `w` changes the sum by `w` -/
+theorem sum_point (a b : Array Rat) (i : Int) (w : Rat) (hi : 0 ≤ i ∧ i < a.size)
+    (hsz : b.size = a.size) (h : ∀ j, at0 b j = at0 a j + if j = i then w else 0) :
+    b.toList.sum = a.toList.sum + w := by
+  rw [sum_eq_rsum a 0, sum_eq_rsum b 0, hsz]
+  rw [rsum_congr (g := fun j => at0 a (j - 0) + (if j = i then w else 0)) 0 a.size
+    (fun j _ _ => by simp only [Int.sub_zero]; exact h j)]
+  rw [rsum_add (fun j => at0 a (j - 0)) (fun j => if j = i then w else 0), rsum_point,
+    if_pos (by omega)]
+
+theorem normalize_spec (hG : GrowthOK) (s : DStore) (h : Inv s) (i : Int) :
+    ∃ t, s.normalize i = some (t, i - t.offset) ∧ t.kind = .plain ∧ t.count = s.count ∧
+      t.minIndex = min i s.minIndex ∧ t.maxIndex = max i s.maxIndex ∧
+      t.offset ≤ t.minIndex ∧ t.maxIndex < t.offset + t.len ∧ ∀ j, wt t j = wt s j := by
+  unfold normalize
+  simp only [h.plain]
+  by_cases hc : i < s.minIndex ∨ i > s.maxIndex
+  · rw [if_pos hc]
+    obtain ⟨t, ht, r⟩ := extendRange_spec hG s h i i (Int.le_refl _)
+    refine ⟨t, ?_, r⟩
+    rw [ht]; rfl
+  · rw [if_neg hc]
+    have h0 : s.count ≠ 0 := by
+      intro h0
+      obtain ⟨_, h1, h2⟩ := h.empty h0
+      simp only [maxInt32, minInt32] at h1 h2
+      omega
+    obtain ⟨w1, w2, w3, _, _⟩ := h.window h0
+    exact ⟨s, rfl, h.plain, rfl, by omega, by omega, w1, w3, fun j => rfl⟩
+
+theorem addWithCount_full (hG : GrowthOK) (s : DStore) (h : Inv s) (i : Int) (w : Rat) (hw : 0 ≤ w) :
+    ∃ s', s.addWithCount i w = some s' ∧ Inv s' ∧
+      (∀ j, wt s' j = wt s j + (if j = i then w else 0)) ∧ s'.count = s.count + w ∧
+      (w ≠ 0 → s'.minIndex = min i s.minIndex ∧ s'.maxIndex = max i s.maxIndex) := by
+  unfold addWithCount
+  by_cases hw0 : w = 0
+  · rw [if_pos hw0]
+    refine ⟨s, rfl, h, ?_, by rw [hw0]; grind, fun hne => absurd hw0 hne⟩
+    intro j; rw [hw0]; split <;> grind
+  · rw [if_neg hw0]
+    have hwpos : 0 < w := by grind
+    obtain ⟨t, hn, hk, hc, hmi, hma, ho1, ho2, hwt⟩ := normalize_spec hG s h i
+    have hin : 0 ≤ i - t.offset ∧ i - t.offset < t.bins.size := by
+      unfold len at ho2; omega
+    obtain ⟨nb, hadd, hsz, hat⟩ := addAt_eq t.bins (i - t.offset) w hin
+    rw [hn]
+    simp only [Option.bind_eq_bind, Option.bind_some, hadd, Option.pure_def]
+    have hcnn := h.count_nonneg
+    have hwt' : ∀ j, wt ({ t with bins := nb, count := t.count + w } : DStore) j
+        = wt s j + (if j = i then w else 0) := by
+      intro j
+      have e := hwt j
+      simp only [wt] at e ⊢
+      rw [hat, e]
+      congr 1
+      by_cases hj : j = i
+      · rw [if_pos hj, if_pos (by omega)]
+      · rw [if_neg hj, if_neg (by omega)]
+    have hnn' : ∀ j, 0 ≤ wt ({ t with bins := nb, count := t.count + w } : DStore) j := by
+      intro j; rw [hwt']; have := h.wt_nonneg j; split <;> grind
+    refine ⟨_, rfl, ?_, hwt', by simp only [hc], fun _ => ⟨hmi, hma⟩⟩
+    refine
+      { plain := hk
+        nonneg := nonneg_of_wt _ hnn'
+        countEq := ?_
+        empty := ?_
+        window := ?_
+        outside := ?_ }
+    · -- countEq
+      show t.count + w = nb.toList.sum
+      rw [sum_point t.bins nb (i - t.offset) w hin hsz hat, hc, h.countEq]
+      congr 1
+      exact (sum_eq_of_wt s.bins t.bins s.offset t.offset hwt).symm
+    · intro h0
+      simp only [hc] at h0
+      grind
+    · intro _
+      refine ⟨ho1, by simp only [hmi, hma]; omega, by simp only [len, hsz]; exact ho2, ?_, ?_⟩
+      · -- lower tightness
+        simp only [hwt']
+        show (0 < wt s t.minIndex + (if t.minIndex = i then w else 0)) ∨ t.minIndex = maxInt32
+        by_cases hlt : i < s.minIndex
+        · left
+          have : t.minIndex = i := by omega
+          rw [if_pos this]
+          have := h.wt_nonneg t.minIndex
+          grind
+        · have hmin : t.minIndex = s.minIndex := by omega
+          by_cases h0 : s.count = 0
+          · right; rw [hmin]; exact (h.empty h0).2.1
+          · rcases (h.window h0).2.2.2.1 with hp | hp
+            · left; rw [hmin]; split <;> grind
+            · right; rw [hmin]; exact hp
+      · simp only [hwt']
+        show (0 < wt s t.maxIndex + (if t.maxIndex = i then w else 0)) ∨ t.maxIndex = minInt32
+        by_cases hlt : s.maxIndex < i
+        · left
+          have : t.maxIndex = i := by omega
+          rw [if_pos this]
+          have := h.wt_nonneg t.maxIndex
+          grind
+        · have hmax : t.maxIndex = s.maxIndex := by omega
+          by_cases h0 : s.count = 0
+          · right; rw [hmax]; exact (h.empty h0).2.2
+          · rcases (h.window h0).2.2.2.2 with hp | hp
+            · left; rw [hmax]; split <;> grind
+            · right; rw [hmax]; exact hp
+    · intro j hj
+      rw [hwt']
+      have hj' : (j < t.minIndex ∨ t.maxIndex < j) := hj
+      rw [h.outside j (by omega), if_neg (by omega)]
+      grind
+
+/-- no panic, invariant kept, exactly one index changes by exactly `w` -/
+theorem addWithCount_ok (hG : GrowthOK) (s : DStore) (h : Inv s) (i : Int) (w : Rat) (hw : 0 ≤ w) :
+    ∃ s', s.addWithCount i w = some s' ∧ Inv s' ∧
+      (∀ j, wt s' j = wt s j + (if j = i then w else 0)) ∧ s'.count = s.count + w := by
+  obtain ⟨s', h1, h2, h3, h4, _⟩ := addWithCount_full hG s h i w hw
+  exact ⟨s', h1, h2, h3, h4⟩
+
+theorem addWithCount_bounded32 (hG : GrowthOK) (s : DStore) (h : Inv s) (hb : Bounded32 s)
+    (i : Int) (w : Rat) (hw : 0 ≤ w) (hi : minInt32 ≤ i ∧ i ≤ maxInt32) :
+    ∀ s', s.addWithCount i w = some s' → Bounded32 s' := by
+  intro s' hs'
+  obtain ⟨s'', h1, _, h2, _⟩ := addWithCount_ok hG s h i w hw
+  rw [h1] at hs'
+  cases hs'
+  intro j hj
+  rw [h2] at hj
+  by_cases hji : j = i
+  · rw [hji]; exact hi
+  · rw [if_neg hji] at hj
+    exact hb j (by grind)
+
+/-! ## observers -/
+
+theorem totalCount_eq (s : DStore) (_h : Inv s) : s.totalCount = s.count := rfl
+
+/-- the count is the sum of the weights over the window -/
+theorem count_eq_window (s : DStore) (h : Inv s) :
+    s.count = rsum (wt s) s.minIndex (s.maxIndex - s.minIndex + 1).toNat := by
+  rw [h.countEq]
+  exact sum_eq_window s.bins s.offset s.minIndex _ (fun j hj => h.outside j (by omega))
+
+theorem isEmpty_iff_count (s : DStore) : s.isEmpty = true ↔ s.count = 0 := by
+  simp [isEmpty]
+
+theorem count_zero_iff (s : DStore) (h : Inv s) : s.count = 0 ↔ ∀ j, wt s j = 0 := by
+  constructor
+  · exact fun h0 j => h.wt_zero_of_empty h0 j
+  · intro hz
+    rw [h.countEq, sum_eq_rsum s.bins s.offset]
+    exact rsum_zero _ _ (fun j _ _ => hz j)
+
+theorem isEmpty_iff (s : DStore) (h : Inv s) : s.isEmpty = true ↔ ∀ j, wt s j = 0 :=
+  (isEmpty_iff_count s).trans (count_zero_iff s h)
+
+/-- under `Bounded32` the window bounds carry weight (the clause of the first-draft invariant) -/
+theorem tight_min (s : DStore) (h : Inv s) (hb : Bounded32 s) (h0 : s.count ≠ 0) :
+    0 < wt s s.minIndex := by
+  rcases (h.window h0).2.2.2.1 with hp | hp
+  · exact hp
+  · apply Classical.byContradiction
+    intro hn
+    apply h0
+    rw [count_zero_iff s h]
+    intro j
+    apply Classical.byContradiction
+    intro hj
+    have h1 := hb j hj
+    have h2 : ¬ (j < s.minIndex ∨ s.maxIndex < j) := fun hc => hj (h.outside j hc)
+    have : j = s.minIndex := by omega
+    rw [this] at hj
+    have := h.wt_nonneg s.minIndex
+    grind
+
+theorem tight_max (s : DStore) (h : Inv s) (hb : Bounded32 s) (h0 : s.count ≠ 0) :
+    0 < wt s s.maxIndex := by
+  rcases (h.window h0).2.2.2.2 with hp | hp
+  · exact hp
+  · apply Classical.byContradiction
+    intro hn
+    apply h0
+    rw [count_zero_iff s h]
+    intro j
+    apply Classical.byContradiction
+    intro hj
+    have h1 := hb j hj
+    have h2 : ¬ (j < s.minIndex ∨ s.maxIndex < j) := fun hc => hj (h.outside j hc)
+    have : j = s.maxIndex := by omega
+    rw [this] at hj
+    have := h.wt_nonneg s.maxIndex
+    grind
+
+theorem minIndex?_eq (s : DStore) (k : Int) (hk : s.minIndex? = some k) :
+    s.count ≠ 0 ∧ k = s.minIndex := by
+  unfold minIndex? at hk
+  by_cases he : s.isEmpty = true
+  · rw [if_pos he] at hk; cases hk
+  · rw [if_neg he] at hk
+    cases hk
+    exact ⟨fun h0 => he ((isEmpty_iff_count s).2 h0), rfl⟩
+
+theorem maxIndex?_eq (s : DStore) (k : Int) (hk : s.maxIndex? = some k) :
+    s.count ≠ 0 ∧ k = s.maxIndex := by
+  unfold maxIndex? at hk
+  by_cases he : s.isEmpty = true
+  · rw [if_pos he] at hk; cases hk
+  · rw [if_neg he] at hk
+    cases hk
+    exact ⟨fun h0 => he ((isEmpty_iff_count s).2 h0), rfl⟩
+
+/-- general form (any `Int` index): `MinIndex()` is a lower bound of the support; it carries
+    weight unless it is the sentinel `MaxInt32` -/
+theorem minIndex_spec' (s : DStore) (h : Inv s) (k : Int) (hk : s.minIndex? = some k) :
+    (0 < wt s k ∨ k = maxInt32) ∧ ∀ j, j < k → wt s j = 0 := by
+  obtain ⟨h0, rfl⟩ := minIndex?_eq s k hk
+  exact ⟨(h.window h0).2.2.2.1, fun j hj => h.outside j (Or.inl hj)⟩
+
+theorem maxIndex_spec' (s : DStore) (h : Inv s) (k : Int) (hk : s.maxIndex? = some k) :
+    (0 < wt s k ∨ k = minInt32) ∧ ∀ j, k < j → wt s j = 0 := by
+  obtain ⟨h0, rfl⟩ := maxIndex?_eq s k hk
+  exact ⟨(h.window h0).2.2.2.2, fun j hj => h.outside j (Or.inr hj)⟩
+
+/-- the requested statement holds when all weight sits on int32 indexes -/
+theorem minIndex_spec (s : DStore) (h : Inv s) (hb : Bounded32 s) (k : Int)
+    (hk : s.minIndex? = some k) : 0 < wt s k ∧ ∀ j, j < k → wt s j = 0 := by
+  obtain ⟨h0, rfl⟩ := minIndex?_eq s k hk
+  exact ⟨tight_min s h hb h0, fun j hj => h.outside j (Or.inl hj)⟩
+
+theorem maxIndex_spec (s : DStore) (h : Inv s) (hb : Bounded32 s) (k : Int)
+    (hk : s.maxIndex? = some k) : 0 < wt s k ∧ ∀ j, k < j → wt s j = 0 := by
+  obtain ⟨h0, rfl⟩ := maxIndex?_eq s k hk
+  exact ⟨tight_max s h hb h0, fun j hj => h.outside j (Or.inr hj)⟩
+
+theorem minIndex?_none_iff (s : DStore) (h : Inv s) : s.minIndex? = none ↔ ∀ j, wt s j = 0 := by
+  rw [← isEmpty_iff s h]; unfold minIndex?; split <;> simp_all
+
+theorem maxIndex?_none_iff (s : DStore) (h : Inv s) : s.maxIndex? = none ↔ ∀ j, wt s j = 0 := by
+  rw [← isEmpty_iff s h]; unfold maxIndex?; split <;> simp_all
+
+/-! ## loops over `idxRange` -/
+
+def irange (lo : Int) (n : Nat) : List Int := (List.range n).map (fun (k : Nat) => lo + (k : Int))
+
+theorem idxRange_eq (lo hi : Int) : idxRange lo hi = irange lo (hi - lo + 1).toNat := rfl
+
+theorem irange_zero (lo : Int) : irange lo 0 = [] := rfl
+
+theorem irange_succ_left (lo : Int) (n : Nat) : irange lo (n + 1) = lo :: irange (lo + 1) n := by
+  simp only [irange, List.range_succ_eq_map, List.map_cons, List.map_map]
+  congr 1
+  · simp
+  · apply List.map_congr_left
+    intro k _
+    simp only [Function.comp]
+    omega
+
+theorem irange_succ_right (lo : Int) (n : Nat) : irange lo (n + 1) = irange lo n ++ [lo + n] := by
+  simp [irange, List.range_succ]
+
+/-! ## `binsList` -/
+
+theorem bins_loop (a : Array Rat) (off : Int) (n : Nat) (lo : Int)
+    (hin : ∀ idx, lo ≤ idx → idx < lo + n → 0 ≤ idx - off ∧ idx - off < a.size) :
+    ∃ l, (irange lo n).foldrM (fun idx acc => do
+            let c ← rd a (idx - off)
+            pure (if c > 0 then (idx, c) :: acc else acc)) [] = some l ∧
+      (∀ p : Int × Rat, p ∈ l ↔ (lo ≤ p.1 ∧ p.1 < lo + n ∧ 0 < p.2 ∧ p.2 = at0 a (p.1 - off))) ∧
+      l.Pairwise (fun x y => x.1 < y.1) := by
+  induction n generalizing lo with
+  | zero =>
+    refine ⟨[], rfl, ?_, List.Pairwise.nil⟩
+    intro p; simp; omega
+  | succ n ih =>
+    obtain ⟨l, hl, hmem, hpw⟩ := ih (lo + 1) (fun idx h1 h2 => hin idx (by omega) (by omega))
+    rw [irange_succ_left, List.foldrM_cons, hl]
+    simp only [Option.bind_eq_bind, Option.bind_some, rd_eq a (lo - off) (hin lo (by omega) (by omega)),
+      Option.pure_def]
+    by_cases hpos : at0 a (lo - off) > 0
+    · rw [if_pos hpos]
+      refine ⟨_, rfl, ?_, ?_⟩
+      · intro p
+        rw [List.mem_cons, hmem]
+        constructor
+        · rintro (rfl | ⟨h1, h2, h3, h4⟩)
+          · exact ⟨by simp, by simp; omega, hpos, rfl⟩
+          · exact ⟨by omega, by omega, h3, h4⟩
+        · rintro ⟨h1, h2, h3, h4⟩
+          by_cases hp : p.1 = lo
+          · left
+            rw [hp] at h4
+            exact Prod.ext hp h4
+          · right; exact ⟨by omega, by omega, h3, h4⟩
+      · rw [List.pairwise_cons]
+        refine ⟨?_, hpw⟩
+        intro p hp
+        have := (hmem p).1 hp
+        simp only; omega
+    · rw [if_neg hpos]
+      refine ⟨l, rfl, ?_, hpw⟩
+      intro p
+      rw [hmem]
+      constructor
+      · rintro ⟨h1, h2, h3, h4⟩
+        exact ⟨by omega, by omega, h3, h4⟩
+      · rintro ⟨h1, h2, h3, h4⟩
+        by_cases hp : p.1 = lo
+        · rw [hp] at h4; rw [h4] at h3; exact absurd h3 hpos
+        · exact ⟨by omega, by omega, h3, h4⟩
+
+theorem binsList_spec (s : DStore) (h : Inv s) :
+    ∃ l, s.binsList = some l ∧ (∀ p ∈ l, 0 < p.2 ∧ wt s p.1 = p.2) ∧
+      (∀ j, 0 < wt s j → (j, wt s j) ∈ l) ∧ l.Pairwise (fun a b => a.1 < b.1) := by
+  have hin : ∀ idx, s.minIndex ≤ idx → idx < s.minIndex + ((s.maxIndex - s.minIndex + 1).toNat : Int) →
+      0 ≤ idx - s.offset ∧ idx - s.offset < s.bins.size := by
+    intro idx h1 h2
+    have h0 : s.count ≠ 0 := by
+      intro h0
+      obtain ⟨_, e1, e2⟩ := h.empty h0
+      simp only [maxInt32, minInt32] at e1 e2
+      omega
+    obtain ⟨w1, w2, w3, _, _⟩ := h.window h0
+    unfold len at w3
+    omega
+  obtain ⟨l, hl, hmem, hpw⟩ := bins_loop s.bins s.offset _ s.minIndex hin
+  refine ⟨l, ?_, ?_, ?_, hpw⟩
+  · unfold binsList; rw [idxRange_eq]; exact hl
+  · intro p hp
+    obtain ⟨_, _, h3, h4⟩ := (hmem p).1 hp
+    exact ⟨h3, h4.symm⟩
+  · intro j hj
+    rw [hmem]
+    have : ¬ (j < s.minIndex ∨ s.maxIndex < j) := by
+      intro hc; rw [h.outside j hc] at hj; exact absurd hj (by grind)
+    exact ⟨by simp only; omega, by simp only; omega, hj, rfl⟩
+
+/-! ## `keyAtRank` -/
+
+/-- cumulative weight `Σ_{j ≤ k} wt s j` (the array starts at `offset`; nothing lies below) -/
+def cum (s : DStore) (k : Int) : Rat := rsum (wt s) s.offset (k - s.offset + 1).toNat
+
+/-- `cum` does not depend on where the summation starts, as long as it is below the array -/
+theorem cum_eq (s : DStore) (k lo : Int) (hlo : lo ≤ s.offset) :
+    cum s k = rsum (wt s) lo (k - lo + 1).toNat := by
+  unfold cum
+  obtain ⟨a, ha⟩ : ∃ a : Nat, s.offset = lo + a := ⟨(s.offset - lo).toNat, by omega⟩
+  have hz : ∀ m : Nat, m ≤ a → rsum (wt s) lo m = 0 := by
+    intro m hm
+    exact rsum_zero _ _ (fun j h1 h2 => at0_neg _ _ (by omega))
+  by_cases hk : k < s.offset
+  · rw [show (k - s.offset + 1).toNat = 0 by omega]
+    rw [hz _ (by omega)]; rfl
+  · rw [show (k - lo + 1).toNat = a + (k - s.offset + 1).toNat by omega, rsum_append, hz a (Nat.le_refl _),
+      ← ha]
+    grind
+
+theorem cum_of_lt (s : DStore) (k : Int) (hk : k < s.offset) : cum s k = 0 := by
+  unfold cum
+  rw [show (k - s.offset + 1).toNat = 0 by omega]; rfl
+
+theorem cum_at (s : DStore) (m : Nat) : cum s (m + s.offset) = rsum (at0 s.bins) 0 (m + 1) := by
+  unfold cum
+  rw [show ((m : Int) + s.offset - s.offset + 1).toNat = m + 1 by omega]
+  have := rsum_shift (at0 s.bins) (-s.offset) s.offset (m + 1)
+  rw [show s.offset + -s.offset = 0 by omega] at this
+  rw [← this]
+  rfl
+
+theorem keyAtRank_go_spec (s : DStore) (rank : Rat) (f : Int → Rat) (l : List Rat) (i : Int) (n : Rat)
+    (hf : ∀ k : Nat, k < l.length → f (i + k) = l[k]?.getD 0) (hn : n ≤ rank) :
+    (∃ m : Nat, m < l.length ∧ keyAtRank.go s rank l i n = i + m + s.offset ∧
+        rank < n + rsum f i (m + 1) ∧ ∀ m' : Nat, m' ≤ m → n + rsum f i m' ≤ rank) ∨
+    (n + rsum f i l.length ≤ rank ∧ keyAtRank.go s rank l i n = s.maxIndex) := by
+  induction l generalizing i n with
+  | nil =>
+    right
+    refine ⟨?_, rfl⟩
+    simp only [List.length_nil, rsum]; grind
+  | cons b rest ih =>
+    have h0 : f i = b := by
+      have := hf 0 (by simp)
+      simpa using this
+    simp only [keyAtRank.go]
+    by_cases hgt : n + b > rank
+    · left
+      refine ⟨0, by simp, ?_, ?_, ?_⟩
+      · rw [if_pos hgt]; simp
+      · simp only [rsum, Int.natCast_zero, Int.add_zero, h0]; grind
+      · intro m' hm'
+        have : m' = 0 := by omega
+        subst this
+        simp only [rsum]; grind
+    · rw [if_neg hgt]
+      have hf' : ∀ k : Nat, k < rest.length → f (i + 1 + k) = rest[k]?.getD 0 := by
+        intro k hk
+        have := hf (k + 1) (by simp; omega)
+        simp at this
+        rw [← this]; congr 1; omega
+      rcases ih (i + 1) (n + b) hf' (by grind) with ⟨m, hm, hgo, hlt, hall⟩ | ⟨hle, hgo⟩
+      · left
+        refine ⟨m + 1, by simp; omega, ?_, ?_, ?_⟩
+        · rw [hgo]; push_cast; omega
+        · rw [rsum_succ_left, h0]; grind
+        · intro m' hm'
+          cases m' with
+          | zero => simp only [rsum]; grind
+          | succ m'' =>
+            have := hall m'' (by omega)
+            rw [rsum_succ_left, h0]; grind
+      · right
+        refine ⟨?_, hgo⟩
+        rw [List.length_cons, rsum_succ_left, h0]; grind
+
+/-- rank lookup: the first index whose cumulative weight exceeds `max r 0`, else `maxIndex` -/
+theorem keyAtRank_spec (s : DStore) (h : Inv s) (r : Rat) :
+    let k := s.keyAtRank r
+    let r' := if r < 0 then 0 else r
+    (r' < cum s k ∧ ∀ j, j < k → cum s j ≤ r') ∨ (s.count ≤ r' ∧ k = s.maxIndex) := by
+  intro k r'
+  have hr' : (0 : Rat) ≤ r' := by
+    show (0 : Rat) ≤ if r < 0 then 0 else r
+    split <;> grind
+  have hf : ∀ m : Nat, m < s.bins.toList.length → at0 s.bins (0 + m) = s.bins.toList[m]?.getD 0 := by
+    intro m _
+    rw [Int.zero_add, at0_nat]; simp
+  rcases keyAtRank_go_spec s r' (at0 s.bins) s.bins.toList 0 0 hf hr' with
+    ⟨m, hm, hgo, hlt, hall⟩ | ⟨hle, hgo⟩
+  · left
+    have hk : k = m + s.offset := by
+      show s.keyAtRank r = _
+      unfold keyAtRank
+      rw [hgo]; omega
+    rw [hk, cum_at]
+    refine ⟨by grind, ?_⟩
+    intro j hj
+    by_cases hjo : j < s.offset
+    · rw [cum_of_lt s j hjo]; exact hr'
+    · obtain ⟨m', hm'⟩ : ∃ m' : Nat, j = m' + s.offset := ⟨(j - s.offset).toNat, by omega⟩
+      rw [hm', cum_at]
+      have := hall (m' + 1) (by omega)
+      grind
+  · right
+    refine ⟨?_, by show s.keyAtRank r = _; unfold keyAtRank; exact hgo⟩
+    rw [h.countEq, sum_eq_rsum s.bins 0]
+    simp only [Array.length_toList] at hle
+    have : rsum (fun j => at0 s.bins (j - 0)) 0 s.bins.size = rsum (at0 s.bins) 0 s.bins.size :=
+      rsum_congr _ _ (fun j _ _ => by simp)
+    rw [this]; grind
+
+/-! ## `mergeSame` (both plain), `mergeBins`, `clear`, `reweight` -/
+
+theorem Inv.window_in {s : DStore} (h : Inv s) :
+    ∀ idx, s.minIndex ≤ idx → idx < s.minIndex + ((s.maxIndex - s.minIndex + 1).toNat : Int) →
+      0 ≤ idx - s.offset ∧ idx - s.offset < s.bins.size := by
+  intro idx h1 h2
+  have h0 : s.count ≠ 0 := by
+    intro h0
+    obtain ⟨_, e1, e2⟩ := h.empty h0
+    simp only [maxInt32, minInt32] at e1 e2
+    omega
+  obtain ⟨w1, w2, w3, _, _⟩ := h.window h0
+  unfold len at w3
+  omega
+
+theorem sum_add_of_wt (a b c : Array Rat) (oa ob oc : Int)
+    (h : ∀ j, at0 c (j - oc) = at0 a (j - oa) + at0 b (j - ob)) :
+    c.toList.sum = a.toList.sum + b.toList.sum := by
+  obtain ⟨lo, n, h1, h2, h3⟩ := sum_cover3 a b c oa ob oc
+  rw [h1, h2, h3, ← rsum_add]
+  exact rsum_congr lo n (fun j _ _ => h j)
+
+theorem sum_mul_of_wt (a c : Array Rat) (oa oc : Int) (w : Rat)
+    (h : ∀ j, at0 c (j - oc) = at0 a (j - oa) * w) :
+    c.toList.sum = a.toList.sum * w := by
+  obtain ⟨lo, n, h1, h2⟩ := sum_cover2 a c oa oc
+  rw [h1, h2, ← rsum_mul]
+  exact rsum_congr lo n (fun j _ _ => h j)
+
+theorem merge_loop (ob : Array Rat) (oo so : Int) (n : Nat) (lo : Int) (b : Array Rat)
+    (hin : ∀ idx, lo ≤ idx → idx < lo + n →
+      (0 ≤ idx - oo ∧ idx - oo < ob.size) ∧ (0 ≤ idx - so ∧ idx - so < b.size)) :
+    ∃ b', (irange lo n).foldlM (fun b idx => do
+            let c ← rd ob (idx - oo)
+            addAt b (idx - so) c) b = some b' ∧ b'.size = b.size ∧
+      ∀ j, at0 b' (j - so) = at0 b (j - so) + if lo ≤ j ∧ j < lo + n then at0 ob (j - oo) else 0 := by
+  induction n with
+  | zero =>
+    refine ⟨b, rfl, rfl, ?_⟩
+    intro j; rw [if_neg (by omega)]; grind
+  | succ n ih =>
+    obtain ⟨b1, hb1, hsz1, hat1⟩ := ih (fun idx h1 h2 => hin idx h1 (by omega))
+    obtain ⟨hi1, hi2⟩ := hin (lo + n) (by omega) (by omega)
+    obtain ⟨b2, hb2, hsz2, hat2⟩ := addAt_eq b1 (lo + n - so) (at0 ob (lo + n - oo)) (by rw [hsz1]; exact hi2)
+    refine ⟨b2, ?_, by rw [hsz2, hsz1], ?_⟩
+    · rw [irange_succ_right, List.foldlM_append, hb1]
+      simp only [Option.bind_eq_bind, Option.bind_some, List.foldlM_cons, List.foldlM_nil, rd_eq ob _ hi1, hb2,
+        Option.pure_def]
+    · intro j
+      rw [hat2, hat1]
+      by_cases hj : j = lo + n
+      · subst hj
+        rw [if_neg (by omega), if_pos rfl, if_pos (by omega)]; grind
+      · have hc : ¬ (j - so = lo + ↑n - so) := by omega
+        rw [if_neg hc]
+        by_cases hj2 : lo ≤ j ∧ j < lo + (n : Int)
+        · rw [if_pos hj2, if_pos (by omega)]; grind
+        · rw [if_neg hj2, if_neg (by omega)]; grind
+
+theorem mergeSame_cont (s o s1 : DStore) (hs : Inv s) (ho : Inv o) (h0 : o.count ≠ 0)
+    (hk : s1.kind = .plain) (hc : s1.count = s.count)
+    (hmi : s1.minIndex = min o.minIndex s.minIndex) (hma : s1.maxIndex = max o.maxIndex s.maxIndex)
+    (ho1 : s1.offset ≤ s1.minIndex) (ho2 : s1.maxIndex < s1.offset + s1.len)
+    (hwt : ∀ j, wt s1 j = wt s j) :
+    ∃ s', (do
+        let b ← (idxRange o.minIndex o.maxIndex).foldlM (fun b idx => do
+            let c ← rd o.bins (idx - o.offset)
+            addAt b (idx - s1.offset) c) s1.bins
+        pure ({ s1 with bins := b, count := s1.count + o.count } : DStore)) = some s' ∧
+      Inv s' ∧ (∀ j, wt s' j = wt s j + wt o j) ∧ s'.count = s.count + o.count := by
+  have hopos : 0 < o.count := by have := ho.count_nonneg; grind
+  obtain ⟨ow1, ow2, ow3, ow4, ow5⟩ := ho.window h0
+  have hin : ∀ idx, o.minIndex ≤ idx → idx < o.minIndex + ((o.maxIndex - o.minIndex + 1).toNat : Int) →
+      (0 ≤ idx - o.offset ∧ idx - o.offset < o.bins.size) ∧
+      (0 ≤ idx - s1.offset ∧ idx - s1.offset < s1.bins.size) := by
+    intro idx h1 h2
+    refine ⟨ho.window_in idx h1 h2, ?_⟩
+    unfold len at ho2; omega
+  obtain ⟨b', hb', hsz, hat⟩ := merge_loop o.bins o.offset s1.offset _ o.minIndex s1.bins hin
+  rw [idxRange_eq, hb']
+  simp only [Option.bind_eq_bind, Option.bind_some, Option.pure_def]
+  have hwt' : ∀ j, wt ({ s1 with bins := b', count := s1.count + o.count } : DStore) j
+      = wt s j + wt o j := by
+    intro j
+    have e := hwt j
+    simp only [wt] at e ⊢
+    rw [hat, e]
+    congr 1
+    by_cases hj : o.minIndex ≤ j ∧ j < o.minIndex + ((o.maxIndex - o.minIndex + 1).toNat : Int)
+    · rw [if_pos hj]
+    · rw [if_neg hj]
+      exact (ho.outside j (by omega)).symm
+  have hnn' : ∀ j, 0 ≤ wt ({ s1 with bins := b', count := s1.count + o.count } : DStore) j := by
+    intro j; rw [hwt']; have := hs.wt_nonneg j; have := ho.wt_nonneg j; grind
+  have hcnn := hs.count_nonneg
+  refine ⟨_, rfl, ?_, hwt', by simp only [hc]⟩
+  refine
+    { plain := hk
+      nonneg := nonneg_of_wt _ hnn'
+      countEq := ?_
+      empty := ?_
+      window := ?_
+      outside := ?_ }
+  · show s1.count + o.count = b'.toList.sum
+    rw [sum_add_of_wt s.bins o.bins b' s.offset o.offset s1.offset hwt', hc, hs.countEq, ho.countEq]
+  · intro hz
+    simp only [hc] at hz
+    grind
+  · intro _
+    refine ⟨ho1, by simp only [hmi, hma]; omega, by simp only [len, hsz]; exact ho2, ?_, ?_⟩
+    · simp only [hwt']
+      show (0 < wt s s1.minIndex + wt o s1.minIndex) ∨ s1.minIndex = maxInt32
+      by_cases hlt : o.minIndex < s.minIndex
+      · have hm : s1.minIndex = o.minIndex := by omega
+        rw [hm]
+        rcases ow4 with hp | hp
+        · left; have := hs.wt_nonneg o.minIndex; grind
+        · right; exact hp
+      · have hm : s1.minIndex = s.minIndex := by omega
+        rw [hm]
+        by_cases hsc : s.count = 0
+        · right; exact (hs.empty hsc).2.1
+        · rcases (hs.window hsc).2.2.2.1 with hp | hp
+          · left; have := ho.wt_nonneg s.minIndex; grind
+          · right; exact hp
+    · simp only [hwt']
+      show (0 < wt s s1.maxIndex + wt o s1.maxIndex) ∨ s1.maxIndex = minInt32
+      by_cases hlt : s.maxIndex < o.maxIndex
+      · have hm : s1.maxIndex = o.maxIndex := by omega
+        rw [hm]
+        rcases ow5 with hp | hp
+        · left; have := hs.wt_nonneg o.maxIndex; grind
+        · right; exact hp
+      · have hm : s1.maxIndex = s.maxIndex := by omega
+        rw [hm]
+        by_cases hsc : s.count = 0
+        · right; exact (hs.empty hsc).2.2
+        · rcases (hs.window hsc).2.2.2.2 with hp | hp
+          · left; have := ho.wt_nonneg s.maxIndex; grind
+          · right; exact hp
+  · intro j hj
+    rw [hwt']
+    have hj' : (j < s1.minIndex ∨ s1.maxIndex < j) := hj
+    rw [hs.outside j (by omega), ho.outside j (by omega)]
+    grind
+
+theorem mergeSame_ok (hG : GrowthOK) (s o : DStore) (hs : Inv s) (ho : Inv o) :
+    ∃ s', s.mergeSame o = some s' ∧ Inv s' ∧ (∀ j, wt s' j = wt s j + wt o j) ∧
+      s'.count = s.count + o.count := by
+  unfold mergeSame
+  by_cases he : o.isEmpty = true
+  · rw [if_pos he]
+    have h0 := (isEmpty_iff_count o).1 he
+    refine ⟨s, rfl, hs, ?_, by rw [h0]; grind⟩
+    intro j; rw [ho.wt_zero_of_empty h0]; grind
+  · rw [if_neg he]
+    have h0 : o.count ≠ 0 := fun h0 => he ((isEmpty_iff_count o).2 h0)
+    obtain ⟨ow1, ow2, ow3, ow4, ow5⟩ := ho.window h0
+    by_cases hc : o.minIndex < s.minIndex ∨ o.maxIndex > s.maxIndex
+    · obtain ⟨s1, hs1e, hk, hcnt, hmi, hma, ho1, ho2, hwt⟩ :=
+        extendRange_spec hG s hs o.minIndex o.maxIndex ow2
+      simp only [if_pos hc, hs1e, Option.bind_eq_bind, Option.bind_some, Option.pure_def, hk]
+      have key := mergeSame_cont s o s1 hs ho h0 hk hcnt hmi hma ho1 ho2 hwt
+      simp only [Option.bind_eq_bind, Option.pure_def, hk] at key
+      exact key
+    · have hsc : s.count ≠ 0 := by
+        intro hsc
+        obtain ⟨_, e1, e2⟩ := hs.empty hsc
+        simp only [maxInt32, minInt32] at e1 e2
+        omega
+      obtain ⟨w1, w2, w3, _, _⟩ := hs.window hsc
+      simp only [if_neg hc, Option.bind_eq_bind, Option.bind_some, Option.pure_def, hs.plain]
+      have key := mergeSame_cont s o s hs ho h0 hs.plain rfl (by omega) (by omega) w1 w3 (fun j => rfl)
+      simp only [Option.bind_eq_bind, Option.pure_def, hs.plain] at key
+      exact key
+
+theorem mergeSame_bounded32 (hG : GrowthOK) (s o : DStore) (hs : Inv s) (ho : Inv o)
+    (bs : Bounded32 s) (bo : Bounded32 o) : ∀ s', s.mergeSame o = some s' → Bounded32 s' := by
+  intro s' hs'
+  obtain ⟨s'', h1, _, h2, _⟩ := mergeSame_ok hG s o hs ho
+  rw [h1] at hs'
+  cases hs'
+  intro j hj
+  rw [h2] at hj
+  by_cases h3 : wt s j = 0
+  · exact bo j (by grind)
+  · exact bs j h3
+
+theorem mergeBins_ok (hG : GrowthOK) (s : DStore) (h : Inv s) (l : List (Int × Rat))
+    (hl : ∀ p ∈ l, 0 ≤ p.2) :
+    ∃ s', s.mergeBins l = some s' ∧ Inv s' ∧
+      (∀ j, wt s' j = wt s j + ((l.filter (fun p => p.1 = j)).map (·.2)).sum) ∧
+      s'.count = s.count + (l.map (·.2)).sum := by
+  unfold mergeBins
+  induction l generalizing s with
+  | nil =>
+    refine ⟨s, rfl, h, ?_, ?_⟩
+    · intro j; simp; grind
+    · simp; grind
+  | cons p l ih =>
+    obtain ⟨s1, h1, hi1, hw1, hc1⟩ := addWithCount_ok hG s h p.1 p.2 (hl p (by simp))
+    obtain ⟨s2, h2, hi2, hw2, hc2⟩ := ih s1 hi1 (fun q hq => hl q (by simp [hq]))
+    refine ⟨s2, ?_, hi2, ?_, ?_⟩
+    · rw [List.foldlM_cons, h1]; exact h2
+    · intro j
+      rw [hw2, hw1, List.filter_cons]
+      by_cases hj : j = p.1
+      · have : decide (p.1 = j) = true := by simp [hj]
+        rw [if_pos hj, this]
+        simp only [if_true, List.map_cons, List.sum_cons]
+        grind
+      · have : decide (p.1 = j) = false := by simp; omega
+        rw [if_neg hj, this]
+        simp only [Bool.false_eq_true, if_false]
+        grind
+    · rw [hc2, hc1, List.map_cons, List.sum_cons]; grind
+
+theorem inv_clear (s : DStore) (h : Inv s) : Inv s.clear where
+  plain := h.plain
+  nonneg := by intro j; simp [clear, at0_empty]
+  countEq := by simp [clear]
+  empty := by intro _; simp [clear]
+  window := by intro hc; exact absurd rfl hc
+  outside := by intro i _; simp [wt, clear, at0_empty]
+
+theorem clear_spec (s : DStore) (h : Inv s) : Inv s.clear ∧ ∀ j, wt s.clear j = 0 :=
+  ⟨inv_clear s h, by intro j; simp [wt, clear, at0_empty]⟩
+
+theorem clear_bounded32 (s : DStore) : Bounded32 s.clear := by
+  intro j hj; simp [wt, clear, at0_empty] at hj
+
+theorem reweight_loop (off : Int) (w : Rat) (n : Nat) (lo : Int) (b : Array Rat)
+    (hin : ∀ idx, lo ≤ idx → idx < lo + n → 0 ≤ idx - off ∧ idx - off < b.size) :
+    ∃ b', (irange lo n).foldlM (fun b idx => do
+            let c ← rd b (idx - off)
+            setAt b (idx - off) (c * w)) b = some b' ∧ b'.size = b.size ∧
+      ∀ j, at0 b' (j - off) = if lo ≤ j ∧ j < lo + n then at0 b (j - off) * w else at0 b (j - off) := by
+  induction n with
+  | zero =>
+    refine ⟨b, rfl, rfl, ?_⟩
+    intro j; rw [if_neg (by omega)]
+  | succ n ih =>
+    obtain ⟨b1, hb1, hsz1, hat1⟩ := ih (fun idx h1 h2 => hin idx h1 (by omega))
+    have hi := hin (lo + n) (by omega) (by omega)
+    have hi1 : 0 ≤ lo + n - off ∧ lo + n - off < b1.size := by rw [hsz1]; exact hi
+    obtain ⟨b2, hb2, hsz2, hat2⟩ := setAt_eq b1 (lo + n - off) (at0 b1 (lo + n - off) * w) hi1
+    refine ⟨b2, ?_, by rw [hsz2, hsz1], ?_⟩
+    · rw [irange_succ_right, List.foldlM_append, hb1]
+      simp only [Option.bind_eq_bind, Option.bind_some, List.foldlM_cons, List.foldlM_nil, rd_eq b1 _ hi1, hb2,
+        Option.pure_def]
+    · intro j
+      rw [hat2]
+      by_cases hj : j = lo + n
+      · rw [if_pos (by omega), if_pos (by omega), hat1, if_neg (by omega), hj]
+      · rw [if_neg (by omega), hat1]
+        by_cases hj2 : lo ≤ j ∧ j < lo + (n : Int)
+        · rw [if_pos hj2, if_pos (by omega)]
+        · rw [if_neg hj2, if_neg (by omega)]
+
+theorem reweight_ok (s : DStore) (h : Inv s) (w : Rat) (hw : 0 < w) :
+    ∃ s', s.reweight w = some s' ∧ Inv s' ∧ (∀ j, wt s' j = wt s j * w) ∧
+      s'.count = s.count * w := by
+  obtain ⟨b', hb', hsz, hat⟩ := reweight_loop s.offset w _ s.minIndex s.bins h.window_in
+  simp only [reweight, idxRange_eq, Option.bind_eq_bind, Option.pure_def]
+  simp only [Option.bind_eq_bind] at hb'
+  rw [hb']
+  simp only [Option.bind_some]
+  have hwt' : ∀ j, wt ({ s with bins := b', count := s.count * w } : DStore) j = wt s j * w := by
+    intro j
+    simp only [wt]
+    rw [hat]
+    by_cases hj : s.minIndex ≤ j ∧ j < s.minIndex + ((s.maxIndex - s.minIndex + 1).toNat : Int)
+    · rw [if_pos hj]
+    · rw [if_neg hj]
+      have := h.outside j (by omega)
+      simp only [wt] at this
+      rw [this]; grind
+  have hnn' : ∀ j, 0 ≤ wt ({ s with bins := b', count := s.count * w } : DStore) j := by
+    intro j; rw [hwt']; exact Rat.mul_nonneg (h.wt_nonneg j) (Rat.le_of_lt hw)
+  have hcz : s.count * w = 0 → s.count = 0 := by
+    intro hz
+    rcases Rat.mul_eq_zero.1 hz with h1 | h1
+    · exact h1
+    · grind
+  refine ⟨_, rfl, ?_, hwt', rfl⟩
+  refine
+    { plain := h.plain
+      nonneg := nonneg_of_wt _ hnn'
+      countEq := ?_
+      empty := ?_
+      window := ?_
+      outside := ?_ }
+  · show s.count * w = b'.toList.sum
+    rw [sum_mul_of_wt s.bins b' s.offset s.offset w hwt', h.countEq]
+  · intro hz
+    have := h.empty (hcz hz)
+    exact ⟨by show b'.size = 0; rw [hsz]; exact this.1, this.2⟩
+  · intro hnz
+    have h0 : s.count ≠ 0 := by
+      intro h0; apply hnz; show s.count * w = 0; rw [h0]; grind
+    obtain ⟨w1, w2, w3, w4, w5⟩ := h.window h0
+    refine ⟨w1, w2, by simp only [len, hsz]; exact w3, ?_, ?_⟩
+    · rcases w4 with hp | hp
+      · left; rw [hwt']; exact Rat.mul_pos hp hw
+      · right; exact hp
+    · rcases w5 with hp | hp
+      · left; rw [hwt']; exact Rat.mul_pos hp hw
+      · right; exact hp
+  · intro j hj
+    rw [hwt', h.outside j hj]; grind
+
+theorem reweight_bounded32 (s : DStore) (h : Inv s) (hb : Bounded32 s) (w : Rat) (hw : 0 < w) :
+    ∀ s', s.reweight w = some s' → Bounded32 s' := by
+  intro s' hs'
+  obtain ⟨s'', h1, _, h2, _⟩ := reweight_ok s h w hw
+  rw [h1] at hs'
+  cases hs'
+  intro j hj
+  rw [h2] at hj
+  exact hb j (by intro hz; apply hj; rw [hz]; grind)
+
+/-! ## the finding: `MinIndex()`/`MaxIndex()` are wrong for indexes outside the int32 range
+
+`NewDenseStore()` starts from the sentinels `minIndex = MaxInt32`, `maxIndex = MinInt32` and
+`extendRange` takes `min`/`max` with them.  Adding the single index `MaxInt32 + 1` to an empty
+store therefore leaves `minIndex = MaxInt32`, a bin that holds no weight: the first-draft
+invariant clause `0 < wt s s.minIndex` (and the first-draft `minIndex_spec`) is false without
+the int32 bound.  Symmetrically for `MinInt32 - 1` and `maxIndex`. -/
+
+theorem minIndex_counterexample (hG : GrowthOK) :
+    ∃ s', (DStore.new .plain).addWithCount (maxInt32 + 1) 1 = some s' ∧
+      s'.minIndex? = some maxInt32 ∧ wt s' maxInt32 = 0 ∧ wt s' (maxInt32 + 1) = 1 := by
+  obtain ⟨s', h1, h2, h3, h4, h5⟩ :=
+    addWithCount_full hG (DStore.new .plain) inv_new (maxInt32 + 1) 1 (by decide)
+  have hmin : s'.minIndex = maxInt32 := by
+    rw [(h5 (by decide)).1]; simp only [DStore.new, maxInt32]; omega
+  have hw0 : ∀ j, wt (DStore.new .plain) j = 0 := fun j => by simp [wt, DStore.new, at0_empty]
+  refine ⟨s', h1, ?_, ?_, ?_⟩
+  · unfold minIndex?
+    have hne : s'.count ≠ 0 := by rw [h4]; simp only [DStore.new]; grind
+    have : s'.isEmpty = false :=
+      Bool.eq_false_iff.2 (fun he => hne ((isEmpty_iff_count s').1 he))
+    rw [this, hmin]; rfl
+  · rw [h3, hw0, if_neg (by simp only [maxInt32]; omega)]; grind
+  · rw [h3, hw0, if_pos rfl]; grind
+
+theorem maxIndex_counterexample (hG : GrowthOK) :
+    ∃ s', (DStore.new .plain).addWithCount (minInt32 - 1) 1 = some s' ∧
+      s'.maxIndex? = some minInt32 ∧ wt s' minInt32 = 0 ∧ wt s' (minInt32 - 1) = 1 := by
+  obtain ⟨s', h1, h2, h3, h4, h5⟩ :=
+    addWithCount_full hG (DStore.new .plain) inv_new (minInt32 - 1) 1 (by decide)
+  have hmax : s'.maxIndex = minInt32 := by
+    rw [(h5 (by decide)).2]; simp only [DStore.new, minInt32]; omega
+  have hw0 : ∀ j, wt (DStore.new .plain) j = 0 := fun j => by simp [wt, DStore.new, at0_empty]
+  refine ⟨s', h1, ?_, ?_, ?_⟩
+  · unfold maxIndex?
+    have hne : s'.count ≠ 0 := by rw [h4]; simp only [DStore.new]; grind
+    have : s'.isEmpty = false :=
+      Bool.eq_false_iff.2 (fun he => hne ((isEmpty_iff_count s').1 he))
+    rw [this, hmax]; rfl
+  · rw [h3, hw0, if_neg (by simp only [minInt32]; omega)]; grind
+  · rw [h3, hw0, if_pos rfl]; grind
+
+/-! ## every reachable state -/
+
+inductive Op where
+  | add (i : Int) (w : Rat)
+  | clear
+  | reweight (w : Rat)
+
+/-- `Reweight` returns an error for `w ≤ 0` and is a no-op for `w = 1` (the store is unchanged) -/
+def applyOp (s : DStore) : Op → Option DStore
+  | .add i w => s.addWithCount i w
+  | .clear => some s.clear
+  | .reweight w => if w ≤ 0 ∨ w = 1 then some s else s.reweight w
+
+theorem applyOp_ok (hG : GrowthOK) (s : DStore) (h : Inv s) (op : Op)
+    (hop : match op with | .add _ w => 0 ≤ w | _ => True) :
+    ∃ s', applyOp s op = some s' ∧ Inv s' := by
+  cases op with
+  | add i w =>
+    obtain ⟨s', h1, h2, _⟩ := addWithCount_ok hG s h i w hop
+    exact ⟨s', h1, h2⟩
+  | clear => exact ⟨s.clear, rfl, inv_clear s h⟩
+  | reweight w =>
+    simp only [applyOp]
+    by_cases hc : w ≤ 0 ∨ w = 1
+    · rw [if_pos hc]; exact ⟨s, rfl, h⟩
+    · rw [if_neg hc]
+      obtain ⟨s', h1, h2, _⟩ := reweight_ok s h w (by grind)
+      exact ⟨s', h1, h2⟩
+
+theorem run_from (hG : GrowthOK) (ops : List Op) (s : DStore) (h : Inv s)
+    (hops : ∀ op ∈ ops, match op with | .add _ w => 0 ≤ w | _ => True) :
+    ∃ s', ops.foldlM applyOp s = some s' ∧ Inv s' := by
+  induction ops generalizing s with
+  | nil => exact ⟨s, rfl, h⟩
+  | cons op ops ih =>
+    obtain ⟨s1, h1, hi1⟩ := applyOp_ok hG s h op (hops op (by simp))
+    obtain ⟨s2, h2, hi2⟩ := ih s1 hi1 (fun q hq => hops q (by simp [hq]))
+    exact ⟨s2, by rw [List.foldlM_cons, h1]; exact h2, hi2⟩
+
+theorem run_ok (hG : GrowthOK) (ops : List Op)
+    (hops : ∀ op ∈ ops, match op with | .add _ w => 0 ≤ w | _ => True) :
+    ∃ s, ops.foldlM applyOp (DStore.new .plain) = some s ∧ Inv s :=
+  run_from hG ops _ inv_new hops
+
+/-- with int32 indexes only, every reachable state also satisfies `Bounded32`, so the
+    `MinIndex`/`MaxIndex` observers are exact (`minIndex_spec`, `maxIndex_spec`) -/
+theorem applyOp_ok32 (hG : GrowthOK) (s : DStore) (h : Inv s) (hb : Bounded32 s) (op : Op)
+    (hop : match op with | .add i w => 0 ≤ w ∧ minInt32 ≤ i ∧ i ≤ maxInt32 | _ => True) :
+    ∃ s', applyOp s op = some s' ∧ Inv s' ∧ Bounded32 s' := by
+  cases op with
+  | add i w =>
+    obtain ⟨s', h1, h2, _⟩ := addWithCount_ok hG s h i w hop.1
+    exact ⟨s', h1, h2, addWithCount_bounded32 hG s h hb i w hop.1 hop.2 s' h1⟩
+  | clear => exact ⟨s.clear, rfl, inv_clear s h, clear_bounded32 s⟩
+  | reweight w =>
+    simp only [applyOp]
+    by_cases hc : w ≤ 0 ∨ w = 1
+    · rw [if_pos hc]; exact ⟨s, rfl, h, hb⟩
+    · rw [if_neg hc]
+      have hw : 0 < w := by grind
+      obtain ⟨s', h1, h2, _⟩ := reweight_ok s h w hw
+      exact ⟨s', h1, h2, reweight_bounded32 s h hb w hw s' h1⟩
+
+theorem run_ok32 (hG : GrowthOK) (ops : List Op)
+    (hops : ∀ op ∈ ops, match op with
+      | .add i w => 0 ≤ w ∧ minInt32 ≤ i ∧ i ≤ maxInt32 | _ => True) :
+    ∃ s, ops.foldlM applyOp (DStore.new .plain) = some s ∧ Inv s ∧ Bounded32 s := by
+  suffices H : ∀ (ops : List Op) (s : DStore), Inv s → Bounded32 s →
+      (∀ op ∈ ops, match op with
+        | .add i w => 0 ≤ w ∧ minInt32 ≤ i ∧ i ≤ maxInt32 | _ => True) →
+      ∃ s', ops.foldlM applyOp s = some s' ∧ Inv s' ∧ Bounded32 s' from
+    H ops _ inv_new bounded32_new hops
+  intro ops
+  induction ops with
+  | nil => intro s h hb _; exact ⟨s, rfl, h, hb⟩
+  | cons op ops ih =>
+    intro s h hb hops
+    obtain ⟨s1, h1, hi1, hb1⟩ := applyOp_ok32 hG s h hb op (hops op (by simp))
+    obtain ⟨s2, h2, hi2, hb2⟩ := ih s1 hi1 hb1 (fun q hq => hops q (by simp [hq]))
+    exact ⟨s2, by rw [List.foldlM_cons, h1]; exact h2, hi2, hb2⟩
 
 end DStore
 end DDS
